@@ -16,11 +16,14 @@ import (
 	remoteexecution "github.com/bazelbuild/remote-apis/build/bazel/remote/execution/v2"
 	"github.com/buildbarn/bb-remote-execution/pkg/builder"
 	"github.com/buildbarn/bb-remote-execution/pkg/cleaner"
+	"github.com/buildbarn/bb-remote-execution/pkg/filesystem/pool"
 	"github.com/buildbarn/bb-remote-execution/pkg/proto/remoteworker"
 	runner_pb "github.com/buildbarn/bb-remote-execution/pkg/proto/runner"
 	"github.com/buildbarn/bb-remote-execution/pkg/runner"
 	"github.com/buildbarn/bb-storage/pkg/digest"
+	"github.com/buildbarn/bb-storage/pkg/filesystem"
 	"github.com/buildbarn/bb-storage/pkg/filesystem/path"
+	"github.com/buildbarn/bb-storage/pkg/util"
 
 	"google.golang.org/grpc/codes"
 	"google.golang.org/grpc/status"
@@ -266,6 +269,10 @@ type stack struct {
 	mu   sync.Mutex
 	live map[string]int // directory name -> action id
 	log  []string
+	// per-action bookkeeping of the executor scenarios
+	handed      map[int]int              // successful GetBuildDirectory calls per action id
+	actionFault map[int]string           // "get-dir", "close", "mkdir:<name>", "enter:<name>"
+	loggers     map[int]util.ErrorLogger // I/O error logger installed by the executor
 }
 
 func newStack(r *ev.Run, cfg stackCfg, scenario scn) (*stack, error) {
@@ -273,7 +280,8 @@ func newStack(r *ev.Run, cfg stackCfg, scenario scn) (*stack, error) {
 	if err != nil {
 		return nil, err
 	}
-	st := &stack{r: r, cfg: cfg, scenario: scenario, dir: dir, store: wexec.NewCAS(), live: map[string]int{}}
+	st := &stack{r: r, cfg: cfg, scenario: scenario, dir: dir, store: wexec.NewCAS(), live: map[string]int{},
+		handed: map[int]int{}, actionFault: map[int]string{}, loggers: map[int]util.ErrorLogger{}}
 	st.faultHit.Store("")
 	naive, closer, err := wexec.NewNaiveRoot(dir, st.store)
 	if err != nil {
@@ -325,6 +333,10 @@ func (st *stack) listRoot() []string {
 // GetBuildDirectory makes stack a monitoring BuildDirectoryCreator.
 func (st *stack) GetBuildDirectory(ctx context.Context, actionDigestIfNotRunInParallel *digest.Digest) (builder.BuildDirectory, *path.Trace, error) {
 	id, _ := ctx.Value(actionKey{}).(int)
+	if st.fault(id) == "get-dir" {
+		st.logf("action %d: GetBuildDirectory fails by injection", id)
+		return nil, nil, status.Error(codes.Internal, "scripted failure to acquire a build directory")
+	}
 	callsBefore := st.dirCalls.Load()
 	cleansBefore := st.m.calls.Load()
 	bd, tr, err := st.creator.GetBuildDirectory(ctx, actionDigestIfNotRunInParallel)
@@ -349,6 +361,7 @@ func (st *stack) GetBuildDirectory(ctx context.Context, actionDigestIfNotRunInPa
 	st.mu.Lock()
 	other, shared := st.live[name]
 	st.live[name] = id
+	st.handed[id]++
 	st.mu.Unlock()
 	st.logf("action %d: gets directory %q", id, name)
 	if shared {
@@ -372,6 +385,70 @@ type monDir struct {
 	name   string
 	id     int
 	closed atomic.Bool
+}
+
+func (st *stack) fault(id int) string {
+	st.mu.Lock()
+	defer st.mu.Unlock()
+	return st.actionFault[id]
+}
+
+func (d *monDir) Mkdir(name path.Component, perm os.FileMode) error {
+	if d.st.fault(d.id) == "mkdir:"+name.String() {
+		return syscall.EIO
+	}
+	return d.BuildDirectory.Mkdir(name, perm)
+}
+
+func (d *monDir) EnterBuildDirectory(name path.Component) (builder.BuildDirectory, error) {
+	if d.st.fault(d.id) == "enter:"+name.String() {
+		return nil, syscall.EIO
+	}
+	c, err := d.BuildDirectory.EnterBuildDirectory(name)
+	if err != nil {
+		return nil, err
+	}
+	return &monChild{BuildDirectory: c, st: d.st, id: d.id}, nil
+}
+
+// monChild carries the per-action fault injection into subdirectories of
+// the build directory (input root, /dev).
+type monChild struct {
+	builder.BuildDirectory
+	st *stack
+	id int
+}
+
+func (d *monChild) Mkdir(name path.Component, perm os.FileMode) error {
+	if d.st.fault(d.id) == "mkdir:"+name.String() {
+		return syscall.EIO
+	}
+	return d.BuildDirectory.Mkdir(name, perm)
+}
+
+func (d *monChild) EnterBuildDirectory(name path.Component) (builder.BuildDirectory, error) {
+	if d.st.fault(d.id) == "enter:"+name.String() {
+		return nil, syscall.EIO
+	}
+	c, err := d.BuildDirectory.EnterBuildDirectory(name)
+	if err != nil {
+		return nil, err
+	}
+	return &monChild{BuildDirectory: c, st: d.st, id: d.id}, nil
+}
+
+func (d *monChild) Mknod(name path.Component, perm os.FileMode, deviceNumber filesystem.DeviceNumber) error {
+	if d.st.fault(d.id) == "mknod:"+name.String() {
+		return syscall.EPERM
+	}
+	return d.BuildDirectory.Mknod(name, perm, deviceNumber)
+}
+
+func (d *monDir) InstallHooks(filePool pool.FilePool, errorLogger util.ErrorLogger) {
+	d.st.mu.Lock()
+	d.st.loggers[d.id] = errorLogger
+	d.st.mu.Unlock()
+	d.BuildDirectory.InstallHooks(filePool, errorLogger)
 }
 
 func (d *monDir) Close() error {
@@ -401,6 +478,9 @@ func (d *monDir) Close() error {
 	}
 	if left && !(faulted && st.faultHit.Load() == "RemoveAll") {
 		st.violation("build-directory-left-behind", fmt.Sprintf("directory %q of action %d still exists after its Close returned (err=%v)", d.name, d.id, err))
+	}
+	if err == nil && st.fault(d.id) == "close" {
+		return status.Error(codes.Internal, "scripted failure to close the build directory")
 	}
 	return err
 }
@@ -598,23 +678,37 @@ func creatorScripted(r *ev.Run, cfg stackCfg) (int, int) {
 // stack wired by bb_worker its base, the root creator, never does).
 
 type failingCreator struct {
-	base   builder.BuildDirectoryCreator
-	failAt int
-	calls  atomic.Int64
+	base        builder.BuildDirectoryCreator
+	failAt      int
+	failCloseAt int // the directory handed out by this call fails to close
+	calls       atomic.Int64
 }
 
 func (c *failingCreator) GetBuildDirectory(ctx context.Context, d *digest.Digest) (builder.BuildDirectory, *path.Trace, error) {
-	if int(c.calls.Add(1))-1 == c.failAt {
+	idx := int(c.calls.Add(1)) - 1
+	if idx == c.failAt {
 		return nil, nil, status.Error(codes.Internal, "scripted failure of the base creator")
 	}
-	return c.base.GetBuildDirectory(ctx, d)
+	bd, tr, err := c.base.GetBuildDirectory(ctx, d)
+	if err == nil && idx == c.failCloseAt {
+		bd = failingCloseDir{bd}
+	}
+	return bd, tr, err
+}
+
+type failingCloseDir struct{ builder.BuildDirectory }
+
+func (d failingCloseDir) Close() error {
+	d.BuildDirectory.Close()
+	return status.Error(codes.Internal, "scripted failure to close the base directory")
 }
 
 type failingBaseCfg struct {
-	Case   int  `json:"case"`
-	Calls  int  `json:"calls"`
-	FailAt int  `json:"fail_at"`
-	Holder bool `json:"holder"`
+	Case        int  `json:"case"`
+	Calls       int  `json:"calls"`
+	FailAt      int  `json:"fail_at"`
+	FailCloseAt int  `json:"fail_close_at"` // -1 none
+	Holder      bool `json:"holder"`
 }
 
 func cleanCreatorOverFailingBase(r *ev.Run, cfg failingBaseCfg) {
@@ -633,7 +727,7 @@ func cleanCreatorOverFailingBase(r *ev.Run, cfg failingBaseCfg) {
 	defer closer.Close()
 	m := newMonitor(r, scn{"failing-base", cfg}, func(idx int) cleanPlan { return cleanPlan{Yields: idx % 3} })
 	inv := cleaner.NewIdleInvoker(m.clean)
-	creator := builder.NewCleanBuildDirectoryCreator(&failingCreator{base: builder.NewRootBuildDirectoryCreator(naive), failAt: cfg.FailAt}, inv)
+	creator := builder.NewCleanBuildDirectoryCreator(&failingCreator{base: builder.NewRootBuildDirectoryCreator(naive), failAt: cfg.FailAt, failCloseAt: cfg.FailCloseAt}, inv)
 	ctx := context.Background()
 	var holder builder.BuildDirectory
 	if cfg.Holder {
@@ -655,7 +749,23 @@ func cleanCreatorOverFailingBase(r *ev.Run, cfg failingBaseCfg) {
 		m.enterUse("action")
 		m.duringUse("action")
 		m.leaveUse()
-		if err := bd.Close(); err != nil {
+		callIdx := i
+		if cfg.Holder {
+			callIdx = i + 1
+		}
+		err = bd.Close()
+		switch {
+		case callIdx == cfg.FailCloseAt:
+			// The base directory failed to close: the error has to
+			// surface and the invoker must be released all the same.
+			r.Situation("clean-creator-base-close-fails")
+			if err == nil {
+				m.violation("failure-at-end-of-action-not-reported", "the base directory's Close failed but the clean creator's Close returned nil")
+			}
+			if holder == nil {
+				m.probeIdle(inv, "after-failed-base-close")
+			}
+		case err != nil:
 			m.violation("close-failed-without-any-failure", fmt.Sprintf("clean creator: %v", err))
 		}
 	}
@@ -669,7 +779,7 @@ func cleanCreatorOverFailingBase(r *ev.Run, cfg failingBaseCfg) {
 	}
 	m.probeIdle(inv, "clean-creator-end")
 	r.Count("cleaner_calls", int(m.calls.Load()))
-	r.Hash(ev.HashOf("failing-base", cfg.Calls, cfg.FailAt, cfg.Holder, m.calls.Load()), cfg.FailAt < cfg.Calls+1)
+	r.Hash(ev.HashOf("failing-base", cfg.Calls, cfg.FailAt, cfg.FailCloseAt, cfg.Holder, m.calls.Load()), cfg.FailAt < cfg.Calls+1)
 }
 
 // ---------------------------------------------------------------------
